@@ -215,7 +215,7 @@ func firstUse(spec *ukit.Spec, raws []any, res *ux.Result) {
 	got := make([]any, 2)
 	errs := make([]error, 2)
 	rp := replay{spec, "firstuse", 0, ukit.Show(in)}
-	e := &mcrt.Explorer{MaxPreempt: 2, MaxDelay: 2, MaxSteps: 1 << 20, Races: true, Body: func() {
+	e := &mcrt.Explorer{Embedded: true, MaxPreempt: 2, MaxDelay: 2, MaxSteps: 1 << 20, Races: true, Body: func() {
 		sch := ukit.Build(spec)
 		var wg mcrt.WaitGroup
 		for t := range in {
